@@ -293,6 +293,10 @@ func (s *snapW) SnapshotFile() (raft.SnapshotFile, error) {
 	fid := c.fidSeq
 	c.mu.Unlock()
 	md := f.Metadata()
+	if !s.n.running {
+		// constructor (restore): the node starts from this snapshot
+		s.n.snapIdx = int(md.LastIncludedIndex)
+	}
 	if !s.n.ghost.Load() {
 		c.rec.Emit("snap_open", Ev{"node": s.n.id, "inc": s.n.inc, "fid": fid,
 			"index": int(md.LastIncludedIndex), "term": int(md.LastIncludedTerm), "cfg": c.cfgBytesEv(md.Configuration)})
@@ -333,7 +337,15 @@ func (f *snapFileW) Close() error {
 	content, ok := decodeSnapshot(f.mirror.Bytes())
 	e["ok"] = ok
 	e["content"] = content
-	return f.n.op("snap_close", e, func() error { return f.inner.Close() })
+	return f.n.op("snap_close", e, func() error {
+		err := f.inner.Close()
+		if err == nil {
+			f.n.c.mu.Lock()
+			f.n.snapIdx = int(md.LastIncludedIndex)
+			f.n.c.mu.Unlock()
+		}
+		return err
+	})
 }
 
 func (f *snapFileW) Discard() error {
